@@ -217,6 +217,8 @@ def run_property(pid, tier, seed, jobs=None):
     for r in results:
         if "error" in r:
             harness_errors.append(f"shape {r['shape']}:\n{r['error']}")
+    # assumptions a harness re-checks concretely and reports after the exploration (a confirmed violation takes precedence, see below)
+    harness_errors.extend(getattr(mod, "DEFERRED_ERRORS", []))
 
     ok = [r for r in results if "error" not in r]
     paths = sum(r["paths"] for r in ok)
